@@ -229,6 +229,10 @@ CATALOGUE = [
          old="        return type(self)(self)  # the result must not share state with self\n",
          new="        return self\n",
          note="same mutation as m08_fixed_len_self seen through lazy results: result.fixed_len(len(result)) hands out the memoised text"),
+    dict(id="m10_table_lines_are_lists", prop="C10", file="ak/ppobj.py",
+         old="        line.append(sep)\n        return CHText(line)\n",
+         new="        line.append(sep)\n        return line\n",
+         note="the original defect (fixed in /repo): title and record lines of a table are bare lists of chunks"),
     dict(id="m10_nocolor_returns_cached_colored", prop="C10", suite_catches=True, file="ak/color.py",
          old="            return cls._PALETTE_NO_COLOR\n",
          new="            return cls._PALETTE_NO_COLOR or colors_conf.get_cached_obj(cls)\n",
